@@ -168,7 +168,9 @@ def run(chk):
         ntr = chk.budget(20, 200)
         zero_payload_decl = [mcv for (mcv, isj, args) in decl if not isj and not args]
         for name, d in L.load_corpus("C12"):
-            jobs.append({"k": "corpus-" + name, "cls": "corpus", "key": "corpus:" + name, "copy_from": d, "expect": True})
+            kf = os.path.join(d, "KEY")
+            key = open(kf).read().strip() if os.path.exists(kf) else "corpus:" + name
+            jobs.append({"k": "corpus-" + name, "cls": "corpus", "key": key, "copy_from": d, "expect": True})
         for k in range(ntr):
             r = rng.fork("T%d" % k)
             th = L.gen_trace(r, models, small=(k % 2 == 0))
